@@ -26,6 +26,7 @@ precedes emit_after_hook_events; after-hook events = Started then exactly one of
 (R7) outcome classification: no match -> skipped path, ambiguous -> StepError::AmbiguousMatch, panic / World failure
 -> StepError::Panic; (R8) all emissions go through the one event channel of the Executor.
 Not decided: payload contents beyond the variant (e.g. panic message text).
+Added after the second seeded round: (R9) the documented in-place transformation fail_on_skipped keeps each event at its step kind (= C13.R1); (R10) Clone of every event:: type keeps variant and fields (path tables); (R11) with tracing, every consumed completion de-registers its attempt from the log collector (= C20.R3).
 """
 DECLINED = ["user-visible payload text"]
 ASSUMPTIONS = ["unbounded mpsc channels are FIFO per sender; StreamExt::try_fold visits items in order and stops at the first Err"]
